@@ -6,7 +6,7 @@
    sections, function returns with any outcome (nil, context.Canceled, error e), cancellation of the caller's context
    at any point (also before the call), and both ways out of the select (Wake true / Wake false) whenever enabled.
    A worker's state WDone o means: function i returned o and its goroutine has recorded it. *)
-From Util Require Import Common.Base Common.ListLemmas CCall.Model CCall.Proofs.
+From Util Require Import Common.Base Common.ListLemmas CCall.Model CCall.Spec CCall.Proofs.
 
 (* every function is entered at most once and a nil entry never; once the call has returned (with whatever
    result, in particular nil) every function has been entered exactly once *)
@@ -102,6 +102,20 @@ Theorem c17_witness_repaired :
   cp (run d12_witness) = CSelect 0 /\ cp (run (d12_witness ++ [Wake false; StepC; StepC])) = CRet (OErr 0).
 Proof. exact witness_repaired. Qed.
 
+(* the monitors (CCall/Spec.v, the same functions that judge the implementation's traces) accept every trace of the
+   model: for EVERY list of encoded events, on the observations the model produces for it (up to the first event the
+   model does not accept) no clause of the monitor is ever reported; and if every event is accepted the whole
+   correspondence check of the model against itself is clean *)
+Theorem c17_model_satisfies_monitors : forall evs,
+  monitor mon 0 minit [] evs (run_obs hstep init evs) = [].
+Proof. exact model_satisfies_monitors. Qed.
+Print Assumptions c17_model_satisfies_monitors.
+
+Theorem c17_model_run_check_clean : forall cfg evs,
+  length (run_obs hstep init evs) = length evs -> run_check_ccall cfg evs (run_obs hstep init evs) = [].
+Proof. exact model_run_check_clean. Qed.
+Print Assumptions c17_model_run_check_clean.
+
 (* ---- non-vacuity ---- *)
 (* three entries (one nil): both functions return nil and record; the call returns nil *)
 Example c17_example_nil :
@@ -145,3 +159,18 @@ Example c17_example_degenerate :
   cp (run [Call []]) = CRet ONil /\ cp (run [Call [false]]) = CRet ONil /\
   cp (run [Call [false; false]; StepC; StepC]) = CRet ONil.
 Proof. vm_compute. repeat split; reflexivity. Qed.
+
+(* an encoded history the model accepts entirely (the corpus history of D12), and the monitors do bite: the trace the
+   pinned code produced on it (the call returns nil at the 7th event) is rejected with clauses 2 and 3 *)
+Example c17_example_accepted_history :
+  let evs := [[1; 1; 1]; [2; 0; 2]; [3; 0; 3]; [2; 1; 0]; [3; 1; 1]; [2; 2; 0]; [2; 0; 2]; [2; 0; 2]; [2; 0; 2]]%N in
+  length (run_obs hstep init evs) = length evs /\
+  nth 8 (run_obs hstep init evs) [] = [5; 3; 4; 1; 1; 4; 1; 1]%N.
+Proof. vm_compute. split; reflexivity. Qed.
+
+Example c17_example_monitor_rejects_pinned_trace :
+  let evs := [[1; 1; 1]; [2; 0; 2]; [3; 0; 3]; [2; 1; 0]; [3; 1; 1]; [2; 2; 0]; [2; 0; 2]]%N in
+  let obss := [[1; 0; 0; 0; 0; 0; 0; 0]; [6; 0; 3; 1; 0; 3; 1; 0]; [6; 0; 1; 1; 0; 3; 1; 0]; [6; 0; 4; 1; 0; 3; 1; 0];
+               [6; 0; 4; 1; 0; 1; 1; 0]; [6; 0; 4; 1; 0; 4; 1; 0]; [5; 1; 4; 1; 1; 4; 1; 1]]%N in
+  monitor mon 0 minit [] evs obss = [PropFalse 17 2 6; PropFalse 17 3 6].
+Proof. vm_compute. reflexivity. Qed.
